@@ -645,7 +645,7 @@ type c08LaterCase struct {
 
 func genC08Later(t *rapid.T) c08LaterCase {
 	c := c08LaterCase{Count: rapid.IntRange(2, 3).Draw(t, "count"), NAlpha: rapid.IntRange(1, 3).Draw(t, "nalpha"), NBeta: rapid.IntRange(1, 3).Draw(t, "nbeta"),
-		BetaSub: rapid.Bool().Draw(t, "betasub"), Kind: rapid.SampledFrom([]string{"Skip", "Skipf", "SkipNow"}).Draw(t, "kind"),
+		BetaSub: rapid.Bool().Draw(t, "betasub"), Kind: rapid.SampledFrom([]string{"Skip", "Skipf", "SkipNow", "SkipBare"}).Draw(t, "kind"),
 		AlwaysSkipper: rapid.Bool().Draw(t, "always"), Upd: rapid.SampledFrom([]string{"", "clean", "clean", "true"}).Draw(t, "upd"), Sort: rapid.Bool().Draw(t, "sort")}
 	c.SkipAt = rapid.IntRange(0, c.NBeta).Draw(t, "skipat")
 	c.FromExec = rapid.IntRange(2, c.Count).Draw(t, "fromexec")
@@ -772,6 +772,8 @@ type c08NestedCase struct {
 	Sort  bool     `json:"sort"`
 	Stale bool     `json:"stale_entry_in_the_default_directory"`
 	APIs  []string `json:"apis_of_the_skipped_test"`
+	// AllSkip: the unit test skips as well (go test -short, no database): the run makes no Match* call at all
+	AllSkip bool `json:"every_test_of_the_program_skips,omitempty"`
 }
 
 func checkC08Nested(c c08NestedCase) error {
@@ -779,9 +781,13 @@ func checkC08Nested(c c08NestedCase) error {
 	defer cleanModule()
 	nested := Cfg{Dir: strp("__snapshots__/integration")}
 	build := func(withSkip bool) map[string]*Node {
-		tests := map[string]*Node{"TestAlpha": {Steps: []Step{
+		alpha := []Step{
 			{Op: "call", API: "snap", Cfg: c08Cfgs["default"], Value: "alpha", Tag: "default"},
-			{Op: "call", API: "ssnap", Cfg: c08Cfgs["default"], Value: "alpha standalone", Tag: "default"}}}}
+			{Op: "call", API: "ssnap", Cfg: c08Cfgs["default"], Value: "alpha standalone", Tag: "default"}}
+		if withSkip && c.AllSkip {
+			alpha = append([]Step{{Op: "skip", Kind: c.Kind}}, alpha...)
+		}
+		tests := map[string]*Node{"TestAlpha": {Steps: alpha}}
 		var beta []Step
 		if withSkip {
 			beta = append(beta, Step{Op: "skip", Kind: c.Kind})
@@ -829,8 +835,11 @@ func checkC08Nested(c c08NestedCase) error {
 			return fmt.Errorf("entry %q of a test that called snaps.%s is listed as obsolete", id, c.Kind)
 		}
 	}
+	if c.AllSkip && !c.Stale && (len(sum.Files) > 0 || len(sum.Tests) > 0) {
+		return fmt.Errorf("every test of the program called snaps.%s, but Clean lists obsolete items: files %q tests %q", c.Kind, sum.Files, sum.Tests)
+	}
 	for p, b := range before {
-		if !strings.HasPrefix(p, filepath.Join("__snapshots__", "integration")) {
+		if !strings.HasPrefix(p, filepath.Join("__snapshots__", "integration")) && !(c.AllSkip && strings.HasPrefix(p, "__snapshots__")) {
 			continue
 		}
 		a, ok := after[p]
@@ -847,8 +856,8 @@ func checkC08Nested(c c08NestedCase) error {
 func TestC08_NestedDirectorySkipped(t *testing.T) {
 	prop[c08NestedCase]{property: "C08", check: checkC08Nested, weight: 0.1,
 		gen: func(t *rapid.T) c08NestedCase {
-			return c08NestedCase{Kind: rapid.SampledFrom([]string{"Skip", "Skipf", "SkipNow"}).Draw(t, "kind"), Upd: rapid.SampledFrom([]string{"", "clean", "clean", "true"}).Draw(t, "upd"),
-				Sort: rapid.Bool().Draw(t, "sort"), Stale: rapid.Bool().Draw(t, "stale"),
+			return c08NestedCase{Kind: rapid.SampledFrom([]string{"Skip", "Skipf", "SkipNow", "SkipBare"}).Draw(t, "kind"), Upd: rapid.SampledFrom([]string{"", "clean", "clean", "true"}).Draw(t, "upd"),
+				Sort: rapid.Bool().Draw(t, "sort"), Stale: rapid.Bool().Draw(t, "stale"), AllSkip: rapid.IntRange(0, 2).Draw(t, "allskip") == 0,
 				APIs: rapid.SliceOfN(rapid.SampledFrom([]string{"snap", "json", "ssnap", "sjson"}), 1, 3).Draw(t, "apis")}
 		},
 		classify: func(c c08NestedCase) ([]string, bool) {
